@@ -108,7 +108,35 @@ class FrameFeed:
             raise StopIteration()
         f = self.frames.pop(0)
         h2.frame_buffer.FrameBuffer._validate_frame_length(self, f.body_len)
-        return f
+        return self._merge(f)
+
+    def _merge(self, f):
+        """a fragmented header block that is completely present: the FrameBuffer hands
+        HEADERS / PUSH_PROMISE + CONTINUATIONs on as ONE frame holding the whole block
+        (each fragment's length is validated first, like there); an incomplete or broken
+        sequence is passed on frame by frame, as before"""
+        from hyperframe import frame as hf
+        if not isinstance(f, (hf.HeadersFrame, hf.PushPromiseFrame)) or \
+                'END_HEADERS' in f.flags:
+            return f
+        j, n, ok = 0, len(f.data), False
+        while j < len(self.frames) and isinstance(self.frames[j], hf.ContinuationFrame) and \
+                self.frames[j].stream_id == f.stream_id:
+            n = n + len(self.frames[j].data)
+            j += 1
+            if 'END_HEADERS' in self.frames[j - 1].flags:
+                ok = True
+                break
+        if not ok or j >= h2.frame_buffer.CONTINUATION_BACKLOG:
+            return f
+        for g in self.frames[:j]:
+            h2.frame_buffer.FrameBuffer._validate_frame_length(self, g.body_len)
+        del self.frames[:j]
+        from . import models
+        m = models._snapshot_frame(f)
+        m.flags.add('END_HEADERS')
+        m.data = models.LenBytes(n)
+        return m
 
 
 def deliver(c, frames):
